@@ -334,4 +334,318 @@ Theorem aftergen_progress_std_de : forall e (s : state) a, is_alps e = false ->
   exists s', step_ok flt ops e s (EAfterGen a) = Some s'.
 Proof. intros e s a Ha. cbn [step_ok]. rewrite Ha. eauto. Qed.
 
+(* ====================================================================== *)
+(* ALPS: the draws of try_add_to_layer are the answers of an arbitrary random
+   source to the calls random::sup(n) IN THE ORDER THE CODE MAKES THEM; each
+   only has to be below the size of the layer sampled by that call. *)
+Section Oracle.
+Variable sigma : nat -> nat -> nat.       (* sigma i n: value of the i-th call random::sup(n) *)
+Hypothesis sigma_ok : forall i n, (0 < n)%nat -> (sigma i n < n)%nat.
+
+Fixpoint sup_draws (i n k : nat) : list nat :=
+  match k with O => [] | S k' => sigma i n :: sup_draws (S i) n k' end.
+
+Lemma sup_draws_length : forall k i n, length (sup_draws i n k) = k.
+Proof. induction k; intros; simpl; auto. Qed.
+
+Lemma sup_draws_ok : forall k i n d, (0 < n)%nat -> In d (sup_draws i n k) -> (d < n)%nat.
+Proof. induction k; intros i n d Hn H; simpl in H; [contradiction|]. destruct H as [<-|H]; eauto. Qed.
+
+Lemma take_n_app : forall A (a b : list A), take_n (length a) (a ++ b) = Some (a, b).
+Proof. induction a as [|h t IH]; intros b; simpl; auto. rewrite IH. reflexivity. Qed.
+
+(* the draws try_add_to_layer consumes, in call order, starting with call number i *)
+Fixpoint gen_try_add (fuel : nat) (e : env) (p : population) (layer : nat) (inc : ind) (i : nat) : list nat :=
+  match fuel with
+  | O => []
+  | S fuel' =>
+      match nth_error p layer with
+      | None => []
+      | Some ly =>
+          if (length (members ly) <? allowed ly)%nat then []
+          else
+            let m_age := allowed_age e layer (length p) in
+            let kd := sup_draws i (length (members ly)) (S (e_tournament e)) in
+            match kd with
+            | [] => []
+            | d0 :: kr =>
+                match nth_error (members ly) d0 with
+                | None => kd
+                | Some w0 =>
+                    match kill_tournament flt (members ly) m_age d0 w0 kr with
+                    | None => kd
+                    | Some (cw, w) =>
+                        if (((age inc <=? m_age) && (m_age <? age w))
+                            || (((age inc <=? m_age) || (m_age <? age w)) && fge flt (fit inc) (fit w)))
+                           && (S layer <? length p)%nat
+                        then kd ++ gen_try_add fuel' e p (S layer) w (i + S (e_tournament e))
+                        else kd
+                    end
+                end
+            end
+      end
+  end.
+
+Theorem try_add_oracle : forall fuel e (p : population) layer inc i,
+  PL F p -> (layer < length p)%nat -> (length p - layer <= fuel)%nat ->
+  exists p' b, (forall rest, try_add flt fuel e p layer inc (gen_try_add fuel e p layer inc i ++ rest) = Some (p', b, rest))
+               /\ PL F p' /\ length p' = length p.
+Proof.
+  induction fuel as [|fuel IH]; intros e p layer inc i Hpl Hl Hf; [lia|].
+  cbn [try_add gen_try_add]. destruct (nth_error p layer) as [ly|] eqn:El; [|apply nth_error_None in El; lia].
+  pose proof (PL_nth F p layer ly Hpl El) as Hsz.
+  destruct (length (members ly) <? allowed ly)%nat eqn:Cfull.
+  { exists (add_to_layer p layer inc), true. split; [intro; reflexivity|].
+    split; [apply PL_add_to_layer; auto | apply length_add_to_layer]. }
+  set (n := length (members ly)) in *.
+  assert (Hkl : length (sup_draws i n (S (e_tournament e))) = S (e_tournament e)) by apply sup_draws_length.
+  assert (Hkok : forall d, In d (sup_draws i n (S (e_tournament e))) -> (d < n)%nat) by (intros; eapply sup_draws_ok; eauto; lia).
+  destruct (sup_draws i n (S (e_tournament e))) as [|d0 kr] eqn:Ekd; [simpl in Hkl; lia|].
+  destruct (nth_error (members ly) d0) as [w0|] eqn:Ew;
+    [|apply nth_error_None in Ew; specialize (Hkok d0 (or_introl eq_refl)); lia].
+  destruct (kill_tournament_total (members ly) (allowed_age e layer (length p)) kr d0 w0) as [[cw w] Ek].
+  { intros; apply Hkok; right; auto. }
+  rewrite Ek.
+  assert (Htake : forall X, take_n (S (e_tournament e)) ((d0 :: kr) ++ X) = Some (d0 :: kr, X)).
+  { intro X. rewrite <- Hkl. apply take_n_app. }
+  match goal with |- context [if ?c && (S layer <? length p)%nat then _ else _] => destruct c eqn:Ccond end; cbn [andb].
+  - destruct (S layer <? length p)%nat eqn:Cl.
+    + apply Nat.ltb_lt in Cl.
+      destruct (IH e p (S layer) w (i + S (e_tournament e))%nat Hpl Cl) as (p1 & b1 & Hr & Hp1 & Hl1); [lia|].
+      exists (set_ind p1 (layer, cw) inc), true. split.
+      * intro rest. rewrite <- app_assoc, Htake, Ew, Ek, Ccond, Hr. reflexivity.
+      * split; [apply PL_set_ind; auto | rewrite length_set_ind; auto].
+    + exists (set_ind p (layer, cw) inc), true. split.
+      * intro rest. rewrite Htake, Ew, Ek, Ccond. reflexivity.
+      * split; [apply PL_set_ind; auto | apply length_set_ind].
+  - exists p, false. split; [|auto]. intro rest. rewrite Htake, Ew, Ek, Ccond. reflexivity.
+Qed.
+
+(* replacement::alps::run *)
+Definition gen_repl_alps (e : env) (s : state) (parents : list coord) (o : ind) (i : nat) : list nat :=
+  match parents with
+  | p0 :: p1 :: _ =>
+      let p := pop s in
+      let g1 := gen_try_add (length p) e p (Nat.max (fst p0) (fst p1)) o i in
+      match try_add flt (length p) e p (Nat.max (fst p0) (fst p1)) o g1 with
+      | Some (pa, ins, _) =>
+          if fgt flt (fit o) (best_fit (sm s)) && (negb ins && e_elitism e)
+          then g1 ++ gen_try_add (length pa) e pa (length pa - 1) o (i + length g1)
+          else g1
+      | None => g1
+      end
+  | _ => []
+  end.
+
+Theorem repl_alps_oracle : forall e (s : state) c0 c1 o i,
+  PL F (pop s) -> (fst c0 < length (pop s))%nat -> (fst c1 < length (pop s))%nat ->
+  exists s', repl_alps flt e s [c0; c1] o (gen_repl_alps e s [c0; c1] o i) = Some s'.
+Proof.
+  intros e s c0 c1 o i Hpl H0 H1. unfold repl_alps, gen_repl_alps.
+  set (layer := Nat.max (fst c0) (fst c1)). assert (Hl : (layer < length (pop s))%nat) by (subst layer; lia).
+  destruct (try_add_oracle (length (pop s)) e (pop s) layer o i Hpl Hl) as (pa & ins & Hr & Hpa & Hla); [lia|].
+  pose proof (Hr []) as Hr0. rewrite app_nil_r in Hr0. rewrite Hr0.
+  destruct (fgt flt (fit o) (best_fit (sm s))) eqn:Cb; cbn [andb].
+  - destruct (negb ins && e_elitism e) eqn:Ce.
+    + assert (Hlast : (length pa - 1 < length pa)%nat) by lia.
+      destruct (try_add_oracle (length pa) e pa (length pa - 1) o (i + length (gen_try_add (length (pop s)) e (pop s) layer o i))%nat Hpa Hlast)
+        as (pb & b2 & Hr2 & _); [lia|].
+      rewrite Hr. pose proof (Hr2 []) as Hr20. rewrite app_nil_r in Hr20. rewrite ?Cb, ?Ce, Hr20. eauto.
+    + rewrite Hr0, ?Cb, ?Ce. eauto.
+  - rewrite Hr0, ?Cb. eauto.
+Qed.
+
+(* try_move_up_layer(0) *)
+Fixpoint gen_move_up (e : env) (p : population) (xs : list ind) (i : nat) : list nat :=
+  match xs with
+  | [] => []
+  | x :: r =>
+      let g := gen_try_add (length p) e p 1 x i in
+      match try_add flt (length p) e p 1 x g with
+      | Some (p', _, _) => g ++ gen_move_up e p' r (i + length g)
+      | None => g
+      end
+  end.
+
+Theorem move_up_oracle : forall e xs (p : population) i, PL F p -> (1 < length p)%nat ->
+  exists p', (forall rest, move_up flt e p xs (gen_move_up e p xs i ++ rest) = Some (p', rest))
+             /\ PL F p' /\ length p' = length p.
+Proof.
+  intros e. induction xs as [|x r IH]; intros p i Hpl Hl; cbn [move_up gen_move_up].
+  - exists p. auto.
+  - destruct (try_add_oracle (length p) e p 1 x i Hpl Hl) as (p1 & b1 & Hr & Hp1 & Hl1); [lia|].
+    pose proof (Hr []) as Hr0. rewrite app_nil_r in Hr0. rewrite Hr0.
+    destruct (IH p1 (i + length (gen_try_add (length p) e p 1 x i))%nat Hp1) as (p2 & Hr2 & Hp2 & Hl2); [lia|].
+    exists p2. split; [|split; [auto|congruence]].
+    intro rest. rewrite <- app_assoc, Hr. apply Hr2.
+Qed.
+
+(* ---- a whole step of the ALPS strategies ---- *)
+Lemma valid_coord_layer : forall (p : population) c, valid_coord p c = true -> (fst c < length p)%nat.
+Proof.
+  intros p c H. unfold valid_coord, get in H. destruct (nth_error p (fst c)) eqn:E; [|discriminate].
+  apply nth_error_Some. congruence.
+Qed.
+
+Lemma alps_select_pair : forall e (p : population) layer pk0 pk1 pks cs,
+  alps_select flt e p layer pk0 pk1 pks = Some cs ->
+  exists c0 c1, cs = [c0; c1] /\ parents_exist_b p cs = true /\ (fst c0 < length p)%nat /\ (fst c1 < length p)%nat.
+Proof.
+  intros e p layer pk0 pk1 pks cs E. pose proof (alps_parents_layer_or_below F flt e p layer pk0 pk1 pks cs E) as H.
+  unfold alps_parents_b in H. apply andb_prop in H. destruct H as [H _]. apply andb_prop in H. destruct H as [Hl Hex].
+  destruct cs as [|c0 [|c1 [|c2 r]]]; simpl in Hl; try discriminate.
+  exists c0, c1. split; [reflexivity|]. split; [exact Hex|].
+  unfold parents_exist_b in Hex. simpl in Hex. apply andb_prop in Hex. destruct Hex as [V0 Hex].
+  apply andb_prop in Hex. destruct Hex as [V1 _]. split; apply valid_coord_layer; auto.
+Qed.
+
+(* For every behaviour [sigma] of the random source in the replacement, every
+   selection draw within its contract and every offspring the recombination can
+   return for the selected parents, the ALPS step is accepted; [ds] are sigma's
+   answers in call order. *)
+Theorem step_progress_alps_gen : forall e (s : state) layer pk0 pk1 pks rd o (i : nat),
+  is_alps e = true -> PL F (pop s) ->
+  (layer < length (pop s))%nat -> length pks = e_tournament e ->
+  pick_draw_ok (pop s) layer P1 pk0 -> pick_draw_ok (pop s) layer P1 pk1 ->
+  (forall pk, In pk pks -> pick_draw_ok (pop s) layer (e_p_same e) pk) ->
+  (forall parents, alps_select flt e (pop s) layer pk0 pk1 pks = Some parents ->
+     recombine e (pop s) parents rd o = Some o) ->
+  exists ds s', step_ok flt ops e s (EStep (SelAlps layer pk0 pk1 pks) rd o ds) = Some s'.
+Proof.
+  intros e s layer pk0 pk1 pks rd o i Ha Hpl Hl Hlen H0 H1 Hr Hrec.
+  destruct (alps_select_total e (pop s) layer pk0 pk1 pks Hl Hlen H0 H1 Hr) as [cs Ecs].
+  destruct (alps_select_pair e (pop s) layer pk0 pk1 pks cs Ecs) as (c0 & c1 & -> & Hex & L0 & L1).
+  destruct (repl_alps_oracle e s c0 c1 o i Hpl L0 L1) as [s' Es'].
+  exists (gen_repl_alps e s [c0; c1] o i), s'.
+  cbn [step_ok]. unfold select.
+  assert (Esel : match e_strat e with Std | De => None | _ => alps_select flt e (pop s) layer pk0 pk1 pks end = Some [c0; c1]).
+  { unfold is_alps in Ha. destruct (e_strat e); try discriminate; exact Ecs. }
+  replace (match e_strat e, SelAlps layer pk0 pk1 pks with
+           | Std, SelTournament tgt rs => tournament_select flt e (pop s) tgt rs
+           | De, SelRandom cs => random_select e (pop s) cs
+           | Alps, SelAlps l a b r => alps_select flt e (pop s) l a b r
+           | DeAlps, SelAlps l a b r => alps_select flt e (pop s) l a b r
+           | _, _ => None
+           end) with (Some [c0; c1]) by (unfold is_alps in Ha; destruct (e_strat e); try discriminate; auto).
+  rewrite (Hrec _ Ecs). unfold replace. rewrite Ha. exact Es'.
+Qed.
+
+Theorem step_progress_alps : forall e (s : state) layer pk0 pk1 pks k o (i : nat),
+  e_strat e = Alps -> PL F (pop s) ->
+  (layer < length (pop s))%nat -> length pks = e_tournament e ->
+  pick_draw_ok (pop s) layer P1 pk0 -> pick_draw_ok (pop s) layer P1 pk1 ->
+  (forall pk, In pk pks -> pick_draw_ok (pop s) layer (e_p_same e) pk) ->
+  (forall r1 x1 x2 parents, alps_select flt e (pop s) layer pk0 pk1 pks = Some parents ->
+     hd_error parents = Some r1 -> get (pop s) r1 = Some x1 -> get (pop s) (second parents r1) = Some x2 ->
+     base_offspring_ok e x1 x2 k o) ->
+  exists ds s', step_ok flt ops e s (EStep (SelAlps layer pk0 pk1 pks) (RecBase k) o ds) = Some s'.
+Proof.
+  intros e s layer pk0 pk1 pks k o i Hst Hpl Hl Hlen H0 H1 Hr Hoff.
+  assert (Ha : is_alps e = true) by (unfold is_alps; rewrite Hst; reflexivity).
+  assert (Hde : is_de e = false) by (unfold is_de; rewrite Hst; reflexivity).
+  apply (step_progress_alps_gen e s layer pk0 pk1 pks (RecBase k) o i Ha Hpl Hl Hlen H0 H1 Hr).
+  intros parents Ep.
+  destruct (alps_select_pair e (pop s) layer pk0 pk1 pks parents Ep) as (c0 & c1 & -> & Hex & _).
+  destruct (parents_head (pop s) [c0; c1]) as (r1 & x1 & x2 & Hh & G1 & G2); [discriminate|exact Hex|].
+  apply (recombine_base_total e (pop s) [c0; c1] r1 x1 x2 k o Hde Hh G1 G2). eapply Hoff; eauto.
+Qed.
+
+(* ---- the end of a generation under ALPS, for ANY analyzer statistics ---- *)
+Lemma removal_loop_total : forall means l (p : population), (l < length means)%nat ->
+  exists p', removal_loop ops means p l = Some p' /\ (length p' <= length p)%nat.
+Proof.
+  intros means. induction l as [|k IH]; intros p Hl; cbn [removal_loop]; [eauto|].
+  destruct (nth_error means k) as [a|] eqn:Ea; [|apply nth_error_None in Ea; lia].
+  destruct (nth_error means (S k)) as [b|] eqn:Eb; [|apply nth_error_None in Eb; lia].
+  destruct (IH (if st_almost_equal ops a b then remove_nth (S k) p else p)) as (p' & E & L); [lia|].
+  exists p'. split; auto. destruct (st_almost_equal ops a b); auto.
+  assert (length (remove_nth (S k) p) <= length p)%nat.
+  { clear. generalize (S k). induction p as [|h t IHp]; intros [|n]; simpl; auto. specialize (IHp n). lia. }
+  lia.
+Qed.
+
+Lemma small_flags_total : forall sds n from, (from + n <= length sds)%nat -> exists bs, small_flags ops sds from n = Some bs.
+Proof.
+  intros sds. induction n as [|k IH]; intros from H; cbn [small_flags]; [eauto|].
+  destruct (nth_error sds from) as [sd|] eqn:E; [|apply nth_error_None in E; lia].
+  destruct (IH (S from)) as [r Er]; [lia|]. rewrite Er. eauto.
+Qed.
+
+Lemma length_resize_layers : forall e bs (p : population) l, length (resize_layers e p l bs) = length p.
+Proof.
+  intros e. induction bs as [|b r IH]; intros p l; simpl; auto. rewrite IH.
+  destruct (nth_error p l); auto. destruct b; apply length_set_allowed.
+Qed.
+
+Theorem aftergen_progress_alps : forall e (s : state) st (i : nat),
+  is_alps e = true -> env_ok e -> 0 < e_age_gap e -> PL F (pop s) ->
+  (length (pop s) <= length (fit_mean st))%nat -> (length (pop s) <= length (fit_sd st))%nat ->
+  (length (pop s) <= length (age_mean st))%nat ->
+  exists n, forall news, length news = n -> fresh news = true ->
+    exists ds s', step_ok flt ops e s (EAfterGen (mkAg st ds news)) = Some s'.
+Proof.
+  intros e s st i Ha [Hi Hm] Hgap Hpl Lm Ls La.
+  assert (H0 : PL F (inc_age (pop s))) by (unfold PL; rewrite shape_inc_age; auto).
+  assert (L0 : length (inc_age (pop s)) = length (pop s)) by (unfold inc_age; apply map_length).
+  assert (Hne : (1 <= length (pop s))%nat).
+  { destruct Hpl as [Hne _]. rewrite <- (shape_length F). destruct (shape F (pop s)); [congruence|simpl; lia]. }
+  destruct (removal_loop_total (fit_mean st) (length (inc_age (pop s)) - 1) (inc_age (pop s))) as (p1 & E1 & L1); [lia|].
+  pose proof (PL_removal_loop F ops _ _ _ _ H0 E1) as Hp1.
+  destruct (small_flags_total (fit_sd st) (length p1 - 1) 1) as [bs Ebs]; [lia|].
+  pose proof (PL_resize_layers F e bs p1 1%nat Hm Hi Hp1) as Hp2.
+  pose proof (length_resize_layers e bs p1 1%nat) as L2.
+  assert (Hstep : forall news ds, step_ok flt ops e s (EAfterGen (mkAg st ds news)) =
+            match (let p2 := resize_layers e p1 1 bs in
+                   if (0 <? gen (sm s)) && (gen (sm s) mod e_age_gap e =? 0) then
+                     match add_layer_decision ops e st (length p2) with
+                     | None => None
+                     | Some true => if (length news =? e_individuals e)%nat && fresh news
+                                    then Some (mkLayer news (e_individuals e) :: p2) else None
+                     | Some false =>
+                         match p2 with
+                         | [] => None
+                         | l0 :: _ =>
+                             match (if (1 <? length p2)%nat then move_up flt e p2 (members l0) ds else Some (p2, ds)) with
+                             | None => None
+                             | Some (p3, _) =>
+                                 match p3 with
+                                 | [] => None
+                                 | l0' :: rest => if (length news =? allowed l0')%nat && fresh news
+                                                  then Some (mkLayer news (allowed l0') :: rest) else None
+                                 end
+                             end
+                         end
+                     end
+                   else Some p2) with
+            | Some p => Some (mkState p (next_gen (sm s)))
+            | None => None
+            end).
+  { intros news ds. cbn [step_ok]. rewrite Ha. unfold after_generation_alps. cbn [ag_stats ag_draws ag_news].
+    rewrite E1, Ebs. replace (negb (0 <? e_age_gap e)) with false by (symmetry; apply negb_false_iff, Z.ltb_lt; auto).
+    reflexivity. }
+  set (p2 := resize_layers e p1 1 bs) in *.
+  destruct ((0 <? gen (sm s)) && (gen (sm s) mod e_age_gap e =? 0)) eqn:Cg.
+  2:{ exists O. intros news _ _. exists [], (mkState p2 (next_gen (sm s))). rewrite Hstep. cbn zeta. rewrite ?Cg. reflexivity. }
+  assert (Hdec : exists d, add_layer_decision ops e st (length p2) = Some d).
+  { unfold add_layer_decision. destruct (length p2 <? e_layers e)%nat; [eauto|].
+    destruct (nth_error (age_mean st) (length p2 - 1)) eqn:E; [eauto|apply nth_error_None in E; lia]. }
+  destruct Hdec as [[|] Ed].
+  - exists (e_individuals e). intros news Hn Hf. exists [], (mkState (mkLayer news (e_individuals e) :: p2) (next_gen (sm s))).
+    rewrite Hstep. cbn zeta. rewrite ?Cg, Ed, Hn, Nat.eqb_refl, Hf. reflexivity.
+  - destruct p2 as [|l0 r0] eqn:Ep2; [destruct Hp2 as [Hx _]; simpl in Hx; congruence|].
+    destruct (1 <? length (l0 :: r0))%nat eqn:C1.
+    + apply Nat.ltb_lt in C1.
+      destruct (move_up_oracle e (members l0) (l0 :: r0) i Hp2 C1) as (p3 & Hr3 & Hp3 & L3).
+      destruct p3 as [|l0' rest]; [simpl in L3; discriminate|].
+      exists (allowed l0'). intros news Hn Hf.
+      exists (gen_move_up e (l0 :: r0) (members l0) i), (mkState (mkLayer news (allowed l0') :: rest) (next_gen (sm s))).
+      rewrite Hstep. cbn zeta. rewrite ?Cg, Ed. rewrite (proj2 (Nat.ltb_lt _ _) C1).
+      pose proof (Hr3 []) as Hr30. rewrite app_nil_r in Hr30. rewrite Hr30, Hn, Nat.eqb_refl, Hf. reflexivity.
+    + exists (allowed l0). intros news Hn Hf.
+      exists [], (mkState (mkLayer news (allowed l0) :: r0) (next_gen (sm s))).
+      rewrite Hstep. cbn zeta. rewrite ?Cg, Ed, C1, Hn, Nat.eqb_refl, Hf. reflexivity.
+Qed.
+
+End Oracle.
+
 End Progress.
